@@ -178,4 +178,90 @@ def conforms_struct(fcp: "ref:FcpV2", name: "str", v: "dyn") -> "bool":
             and forall(0, len(sorted_fields(struct_of(fcp, name))),
                        lambda i: conforms(fcp, sorted_fields(struct_of(fcp, name))[i].type,
                                           dyn_get(v, sorted_fields(struct_of(fcp, name))[i].name))
-                       and map_has(v, sorted_fields(struct_of(fcp, name))[i].name)))
+                       and map_has(v, sorted_fields(struct_of(fcp, name))[i].name))
+            and exact_keys(fcp, name, v))
+
+
+# ---------------------------------------------------------------- reading side: "the bits of s at position p are the image of v"
+def name_among(fs: "seq[ref:StructField]", key: "str", k: "int") -> "bool":
+    """key is the name of one of the first k fields"""
+    if k <= 0:
+        return False
+    return fs[k - 1].name == key or name_among(fs, key, k - 1)
+
+
+@pure
+def uval(v: "int", n: "int") -> "int":
+    """the unsigned n-bit image of v (two's complement for negative v)"""
+    return v if v >= 0 else v + pw2(n)
+
+
+def starts(fcp: "ref:FcpV2", t: "ref:Type", s: "seq[int]", p: "int", v: "dyn") -> "bool":
+    """the bit sequence s holds, from position p on, the canonical image of v as a t, completely"""
+    if isinstance(t, UnsignedType) or isinstance(t, SignedType):
+        return p + num_width(t) <= len(s) and val_bits(s, p, num_width(t)) == uval(d_int(v), num_width(t))
+    if isinstance(t, FloatType):
+        return p + 32 <= len(s) and val_bits(s, p, 32) == f32_bits(d_float(v))
+    if isinstance(t, DoubleType):
+        return p + 64 <= len(s) and val_bits(s, p, 64) == f64_bits(d_float(v))
+    if isinstance(t, EnumType):
+        return (p + enum_width(enum_of(fcp, t.name)) <= len(s)
+                and val_bits(s, p, enum_width(enum_of(fcp, t.name))) == d_int(v))
+    if isinstance(t, StringType):
+        return (p + 32 + 8 * len(d_chars(v)) <= len(s) and val_bits(s, p, 32) == len(d_chars(v))
+                and forall(0, len(d_chars(v)), lambda i: val_bits(s, p + 32 + 8 * i, 8) == d_chars(v)[i]))
+    if isinstance(t, StructType):
+        return starts_struct(fcp, t.name, s, p, v)
+    if isinstance(t, ArrayType):
+        return forall(0, t.size, lambda i: starts(fcp, t.underlying_type, s,
+                                                  p + len(wire_elems(fcp, t.underlying_type, d_list(v), i)), d_list(v)[i]))
+    if isinstance(t, DynamicArrayType):
+        return (p + 32 <= len(s) and val_bits(s, p, 32) == len(d_list(v))
+                and forall(0, len(d_list(v)),
+                           lambda i: starts(fcp, t.underlying_type, s,
+                                            p + 32 + len(wire_elems(fcp, t.underlying_type, d_list(v), i)), d_list(v)[i])))
+    if d_is_none(v):
+        return p + 8 <= len(s) and val_bits(s, p, 8) == 0
+    return p + 8 <= len(s) and val_bits(s, p, 8) == 1 and starts(fcp, t.underlying_type, s, p + 8, v)
+
+
+@pure
+def starts_struct(fcp: "ref:FcpV2", name: "str", s: "seq[int]", p: "int", v: "dyn") -> "bool":
+    return forall(0, len(sorted_fields(struct_of(fcp, name))),
+                  lambda k: starts(fcp, sorted_fields(struct_of(fcp, name))[k].type, s,
+                                   p + len(wire_fields(fcp, sorted_fields(struct_of(fcp, name)), v, k)),
+                                   dyn_get(v, sorted_fields(struct_of(fcp, name))[k].name)))
+
+
+@pure
+def exact_keys(fcp: "ref:FcpV2", name: "str", v: "dyn") -> "bool":
+    """v has no keys other than the field names of the struct"""
+    return forall("str", lambda key: implies(map_has(v, key),
+                                             name_among(sorted_fields(struct_of(fcp, name)), key,
+                                                        len(sorted_fields(struct_of(fcp, name))))))
+
+
+def bits_of_bytes(b: "arr") -> "seq[int]":
+    """all 8*len(b) bits of a byte string, LSB first"""
+    ...
+
+
+# ---------------------------------------------------------------- schema well-formedness as far as the codec needs it (C08 establishes it)
+def wf_type(fcp: "ref:FcpV2", t: "ref:Type") -> "bool":
+    if isinstance(t, UnsignedType) or isinstance(t, SignedType):
+        return 1 <= num_width(t) and num_width(t) <= 64
+    if isinstance(t, FloatType) or isinstance(t, DoubleType) or isinstance(t, StringType):
+        return True
+    if isinstance(t, EnumType):
+        return has_enum(fcp, t.name) and enum_values_ok(enum_of(fcp, t.name))
+    if isinstance(t, StructType):
+        return wf_struct(fcp, t.name)
+    if isinstance(t, ArrayType):
+        return t.size >= 0 and wf_type(fcp, t.underlying_type)
+    return wf_type(fcp, t.underlying_type)
+
+
+@pure
+def wf_struct(fcp: "ref:FcpV2", name: "str") -> "bool":
+    return has_struct(fcp, name) and forall(0, len(sorted_fields(struct_of(fcp, name))),
+                                            lambda k: wf_type(fcp, sorted_fields(struct_of(fcp, name))[k].type))
